@@ -1,8 +1,7 @@
 //@ tu: libxcm/core/xpoll.c
 //@ loops: xpoll.loops
 //@ enforce: update_active_fd
-//@ replace: active_fd_get active_fd_put xpoll_fd_reg_add xpoll_fd_reg_mod xpoll_fd_reg_del has_ringing_bell
-//@ defs: -DXP_QCAP=16 -DXP_DEBUG_NOFAIL
+//@ replace: active_fd_get active_fd_put find_fd allocate_fd_reg_idx xpoll_fd_reg_mod xpoll_fd_reg_del has_ringing_bell
 //@ props: C04 C16 C08
 //@ expect: postcondition>=13 canary=6
 #include "_unit.h"
